@@ -53,6 +53,103 @@ class CaseTimeout(Exception):
     pass
 
 
+# ---------------------------------------------------------------- which anchored code the run executed
+#
+# sys.monitoring LINE events with DISABLE after the first hit: every line of rdflib fires at most once per
+# process, so the cost is negligible.  Started in the parent before the pool is forked (children inherit the
+# tool, the callback and the already-disabled locations); each worker hands its new lines back with the case
+# result.  The evidence then says, per anchored file of the property, how many functions and lines of the
+# real code the correspondence run actually entered, and names the functions it never entered.
+
+_COV_NEW: list = []
+_COV_ON = False
+_COV_PREFIX = os.path.join(os.path.realpath(REPO), "rdflib") + os.sep
+
+
+def cov_start():
+    global _COV_ON
+    mon = getattr(sys, "monitoring", None)
+    if _COV_ON or mon is None or os.environ.get("VERIF_NO_COVERAGE"):
+        return
+    try:
+        mon.use_tool_id(mon.COVERAGE_ID, "verif")
+    except ValueError:
+        return
+
+    def on_line(code, line):
+        fn = code.co_filename
+        if fn.startswith(_COV_PREFIX):
+            _COV_NEW.append((fn[len(_COV_PREFIX):], line))
+        elif fn.startswith("/") and os.sep + "rdflib" + os.sep in fn:
+            rp = os.path.realpath(fn)
+            if rp.startswith(_COV_PREFIX):
+                _COV_NEW.append((rp[len(_COV_PREFIX):], line))
+        return mon.DISABLE
+
+    mon.register_callback(mon.COVERAGE_ID, mon.events.LINE, on_line)
+    mon.set_events(mon.COVERAGE_ID, mon.events.LINE)
+    _COV_ON = True
+
+
+def cov_drain():
+    out = list(_COV_NEW)
+    del _COV_NEW[:]
+    return out
+
+
+def anchored_files(prop: str) -> list[str]:
+    try:
+        for line in open(os.path.join(VERIF, "properties.jsonl"), encoding="utf-8"):
+            e = json.loads(line)
+            if e.get("id") == prop:
+                return [f for f in e.get("anchors", {}).get("files", []) if f.startswith("rdflib/") and f.endswith(".py")]
+    except Exception:
+        pass
+    return []
+
+
+def cov_report(prop: str, hit: set) -> dict:
+    """Per anchored file: functions / lines of the real code, and how many this run executed."""
+    rep, tot = {}, {"functions": 0, "functions_entered": 0, "lines": 0, "lines_executed": 0}
+    by_file: dict = {}
+    for f, l in hit:
+        by_file.setdefault(f, set()).add(l)
+    for rel in anchored_files(prop):
+        path = os.path.join(REPO, rel)
+        try:
+            top = compile(open(path, encoding="utf-8").read(), path, "exec")
+        except Exception:
+            continue
+        got = by_file.get(rel[len("rdflib/"):], set())
+        funcs, stack = [], [top]
+        while stack:
+            co = stack.pop()
+            for k in co.co_consts:
+                if hasattr(k, "co_code"):
+                    stack.append(k)
+            if co.co_name.startswith("<") or "__qualname__" in co.co_names:   # comprehensions, lambdas, class bodies
+                continue
+            lines = {l for (_a, _b, l) in co.co_lines() if l and l != co.co_firstlineno}
+            if lines:
+                funcs.append((getattr(co, "co_qualname", co.co_name), lines))
+        n_l = sum(len(ls) for _q, ls in funcs)
+        n_x = sum(len(ls & got) for _q, ls in funcs)
+        missed = sorted(q for q, ls in funcs if not (ls & got))
+        rep[rel] = {"functions": len(funcs), "functions_entered": len(funcs) - len(missed),
+                    "lines": n_l, "lines_executed": n_x, "not_entered": missed[:80]}
+        tot["functions"] += len(funcs); tot["functions_entered"] += len(funcs) - len(missed)
+        tot["lines"] += n_l; tot["lines_executed"] += n_x
+    try:   # executed lines per anchored file, for tools/mutate.py (scratch output, not evidence)
+        os.makedirs(os.path.join(VERIF, "coverage"), exist_ok=True)
+        json.dump({rel: sorted(by_file.get(rel[len("rdflib/"):], ())) for rel in rep},
+                  open(os.path.join(VERIF, "coverage", f"{prop}.json"), "w"))
+    except Exception:
+        pass
+    return {"total": tot, "files": rep,
+            "note": "function bodies of the property's anchored files executed by the implementation side of this run "
+                    "(sys.monitoring LINE events; module-level statements are not counted)"}
+
+
 def case_rng(seed: int, prop: str, i: int, salt: str = "") -> random.Random:
     return random.Random(f"{seed}:{prop}:{i}:{salt}")
 
@@ -185,9 +282,16 @@ def _disarm():
     while True:
         try:
             signal.setitimer(signal.ITIMER_REAL, 0)
+            signal.setitimer(signal.ITIMER_PROF, 0)
             return
         except CaseTimeout:
             continue
+
+
+# A case is a hang when it has burnt `limit` seconds of CPU (ITIMER_PROF: independent of how loaded the
+# machine is — a loop that never ends burns CPU) or when `limit * WALL_FACTOR` seconds of wall-clock time have
+# passed (blocking waits burn no CPU).  Wall-clock alone made verdicts depend on the load of the machine.
+WALL_FACTOR = float(os.environ.get("VERIF_WALL_FACTOR", "6"))
 
 
 def _worker(case):
@@ -198,8 +302,10 @@ def _worker(case):
     again until it escapes.
     """
     signal.signal(signal.SIGALRM, _alarm)
+    signal.signal(signal.SIGPROF, _alarm)
     limit = float(getattr(_MOD, "CASE_TIMEOUT_S", CASE_TIMEOUT_S)) * float(os.environ.get("VERIF_TIMEOUT_SCALE", "1"))
-    signal.setitimer(signal.ITIMER_REAL, limit, 0.2)
+    signal.setitimer(signal.ITIMER_PROF, limit, 0.2)
+    signal.setitimer(signal.ITIMER_REAL, limit * WALL_FACTOR, 0.2)
     try:
         try:
             r = _MOD.run_impl(case)
@@ -210,15 +316,36 @@ def _worker(case):
         r.setdefault("nontrivial", True)
         r.setdefault("key", json.dumps(case, sort_keys=True, default=str))
         r.setdefault("stats", {})
+        if _COV_ON:
+            r["_cov"] = cov_drain()
         return r
     except CaseTimeout:
         _disarm()
-        return {"obs": [], "viol": [f"timeout: implementation call did not return within {limit}s"],
+        return {"obs": [], "viol": [f"timeout: implementation call did not return within {limit}s of CPU time / {limit * WALL_FACTOR}s of wall-clock time"],
                 "nontrivial": True, "key": "timeout", "stats": {"timeout": 1}, "timeout": True}
-    except Exception:
+    except Exception as e:
         _disarm()
-        return {"obs": [], "viol": [], "nontrivial": False, "key": "harness-error", "stats": {},
-                "harness_error": traceback.format_exc()[-1500:]}
+        # Where was it raised?  An exception that escapes from rdflib's own code (innermost frame under the
+        # repository) is the IMPLEMENTATION raising where the harness expected it to return — a difference
+        # between implementation and model, handled as a broken correspondence.  Anything else is a bug of
+        # the harness (exit 2 when frequent, never a violation).
+        tb, inner = e.__traceback__, ""
+        while tb is not None:
+            inner = tb.tb_frame.f_code.co_filename
+            tb = tb.tb_next
+        in_impl = os.path.realpath(inner).startswith(os.path.realpath(REPO) + os.sep)
+        r = {"obs": [], "viol": [], "nontrivial": False, "key": "harness-error", "stats": {},
+             "harness_error": traceback.format_exc()[-1500:]}
+        if in_impl:
+            r["impl_raised"] = f"{type(e).__name__} escaped from {os.path.relpath(os.path.realpath(inner), os.path.realpath(REPO))}: {str(e)[:120]}"
+            r["stats"] = {"impl_raised_unexpectedly": 1}
+        elif not isinstance(e, (OSError, MemoryError, RecursionError)):
+            # raised in the harness while it was reading the implementation's answer (wrong shape, wrong type,
+            # missing key…): on the unchanged tree this never happens, so the answer is one the harness and the
+            # model do not know — again a difference, not infrastructure trouble
+            r["impl_raised"] = f"harness could not interpret the implementation's answer ({type(e).__name__}: {str(e)[:120]})"
+            r["stats"] = {"impl_answer_uninterpretable": 1}
+        return r
 
 
 def run_impl_many(mod, cases, procs=None):
@@ -355,6 +482,7 @@ def run_property(mod, tier="quick", seed=0, replay=None):
 
     if tier == "thorough":
         os.environ.setdefault("VERIF_TIMEOUT_SCALE", "3")
+    cov_start()
     gate = lean_gate(mod, log)
     if tier == "thorough" and gate["ok"] and not os.environ.get("VERIF_NO_LEANCHECKER"):
         probs = leanchecker(mod, log)
@@ -387,7 +515,8 @@ def run_property(mod, tier="quick", seed=0, replay=None):
             cases.append(mod.gen_case(case_rng(seed, prop, i), tier, i)); origin.append(f"gen:{i}")
 
     impl = run_impl_many(mod, cases)
-    harness_errors = [(origin[i], r["harness_error"]) for i, r in enumerate(impl) if r.get("harness_error")]
+    harness_errors = [(origin[i], r["harness_error"]) for i, r in enumerate(impl)
+                      if r.get("harness_error") and not r.get("impl_raised")]
     has_driver = bool(getattr(mod, "DRIVER", None))
     try:
         model_out = model_many(mod, cases) if has_driver else [None] * len(cases)
@@ -398,12 +527,18 @@ def run_property(mod, tier="quick", seed=0, replay=None):
 
     stats, keys, n_diverge = {}, set(), 0
     divergent, failing = [], []
+    cov_hit = set()
+    for r in impl:
+        cov_hit.update(map(tuple, r.pop("_cov", ())))
     for i, (c, r) in enumerate(zip(cases, impl)):
         for k, v in r.get("stats", {}).items():
             stats[k] = stats.get(k, 0) + v
         if r.get("nontrivial"):
             keys.add(r["key"])
-        d = compare(mod, c, r, model_out[i]) if not r.get("harness_error") else None
+        if r.get("impl_raised"):
+            d = "implementation raised where the harness and the model expect it to return: " + r["impl_raised"]
+        else:
+            d = compare(mod, c, r, model_out[i]) if not r.get("harness_error") else None
         if r["viol"]:
             failing.append((i, d))
         elif d is not None:
@@ -506,6 +641,8 @@ def run_property(mod, tier="quick", seed=0, replay=None):
                 if hasattr(mod, "shrink"):
                     def pred(cand):
                         rr = _worker_inline(mod, cand)
+                        if rr.get("impl_raised"):
+                            return True
                         if rr.get("harness_error"):
                             return False
                         mo = model_many(mod, [cand])[0]
@@ -522,6 +659,9 @@ def run_property(mod, tier="quick", seed=0, replay=None):
             if small is not None:
                 rr = _worker_inline(mod, small)
                 payload["impl_obs"] = rr["obs"][:50]
+                if rr.get("impl_raised"):
+                    payload["impl_raised"] = rr["impl_raised"]
+                    payload["traceback"] = rr.get("harness_error")
                 try:
                     payload["model_obs"] = model_many(mod, [small])[0][:50]
                     payload["divergence"] = compare(mod, small, rr, model_many(mod, [small])[0]) or payload["divergence"]
@@ -561,6 +701,7 @@ def run_property(mod, tier="quick", seed=0, replay=None):
             "traces_validated_against_impl": len(cases) - n_diverge - len(harness_errors),
             "model_impl_divergences": n_diverge,
             "generator_distribution": stats,
+            "anchored_code_exercised": cov_report(prop, cov_hit | set(map(tuple, cov_drain()))) if _COV_ON else None,
             "known_findings_reported": sorted(reported_known),
             "harness_errors": len(harness_errors),
             "notes": notes,
